@@ -120,6 +120,7 @@ func init() {
 		Explain: "Decides: (S3) CheckSlice accepts only when start <= end, start >= 0, not(step == 0 and end-start > 1), start < size, and SliceDetails validates every non-nil slice, clamps end and expands nil to (0,size,1); (S4) AP.S and Shape.S refuse more slices than axes and take (start,end,step) of every axis from SliceDetails; (S5) the length term under step > 0 is ceil((end-start)/step) with no extra condition, identical in both calculators; (S9) Slice/SliceInto take window and access pattern from one AP.S call, slice data and mask with the same window, record the parent and copy dtype/engine/flag. " +
 			"(S12) the sliced access pattern is marked NonContiguous at least when a non-outermost axis of a non-vector is sliced or a step > 1 is taken, with the outermost axis chosen by data order (names bound structurally). Not decided: offset (ndStart/ndEnd) arithmetic, stride scaling, which dimensions are dropped.",
 		Run: func(rc *rules.RC) {
+			rules.S15(rc)
 			rules.S3(rc)
 			rules.S5(rc)
 			rules.S9(rc)
@@ -132,6 +133,7 @@ func init() {
 		Explain: "Decides: (S5) the shape-only slice calculator and the access-pattern slice calculator compute the same length term, which is ceil((end-start)/step); (S4) both validate through SliceDetails and refuse too many slices; (S7) every path of Reshape that reaches reshape() has established equal total size, is not a non-contiguous view and has materialised a pending lazy transpose, and reshape() only sets the shape and checks sanity; (O8) for the metadata-invariant clause: no two tensors own the same shape/strides slices (an alias lets one tensor's reshape or recycling zero the other's shape); (S12) AP.S marks sliced views NonContiguous (the flag Reshape's refusal keys on); (S14) every call of the lock-respecting AP.SetShape happens on a pattern unlocked on every path (otherwise the shape is silently not installed and size != product of shape); (L1) RepeatReuse accepts a destination only when its shape is the computed result shape. " +
 			"Not decided: that shape and strides address distinct in-bounds positions (a runtime invariant over values), that reshape preserves the flat sequence, repeat/concat calculators' arithmetic.",
 		Run: func(rc *rules.RC) {
+			rules.V2(rc, 2)
 			rules.S10(rc)
 			rules.WC(rc, 15)
 			rules.S5(rc)
@@ -149,6 +151,7 @@ func init() {
 			"Not decided: that the permutation arithmetic (UnsafePermute, cycle following, iterator order) is the right permutation; the composition law.",
 		Quick: []string{"default", "inplacetranspose"},
 		Run: func(rc *rules.RC) {
+			rules.V2(rc, 2)
 			rules.WC(rc, 15)
 			rules.T12(rc)
 			rules.T4(rc)
@@ -164,6 +167,7 @@ func init() {
 		Explain: "Decides consistency of the iterator family, not its arithmetic: (I1) NextValidity reports !mask[i], NextValid stops on unmasked and NextInvalid on masked elements, in FlatMaskedIterator and MultIterator; (I2) NextValid and NextInvalid of one type are identical up to exactly that polarity; (I3) every path through FlatIterator.Reset rewrites every field the stepping functions mutate (done, nextIndex, track); (I4) the vector fast path addresses track/shape/strides through veclikeDim, which is the first axis of length != 1, and no vector arm uses a literal axis; (I5) the multi-iterator's stride-block key is the digest of all stride elements; (I6) colMajorNDNext is ndNext with loop direction and done-axis reversed. " +
 			"Not decided - and this is the core of the property: that the odometer yields offsets in row-major coordinate order, the skip counts, coordinate tracking values.",
 		Run: func(rc *rules.RC) {
+			rules.I7(rc)
 			rules.I12(rc)
 			rules.I3(rc)
 			rules.I4(rc)
@@ -207,6 +211,7 @@ func init() {
 			"Not decided: counts, run/edge finders, fill values, that valid positions get the unmasked value of elementwise operations.",
 		Quick: []string{"default", "inplacetranspose"},
 		Run: func(rc *rules.RC) {
+			rules.I7(rc)
 			rules.K8(rc, 100)
 			rules.K3(rc, fileFilter("dense_maskcmp_methods.go"), 8, 100)
 			rules.I12(rc)
@@ -225,6 +230,7 @@ func init() {
 		Explain: "Decides: (L0) RequiresIterator/IsMaterializable/IsView are the boolean functions every guard relies on; (L1) every path to a raw whole-buffer access in Memset, Zero, Copy, Materialize, ToMat64 has established that the tensor is not a view / does not require an iterator (iterator-driven variants are used otherwise); (M2/M3) in-place arithmetic through a view runs the iterator kernel paired with the view's own iterator, never a raw kernel on the iterator path; (V1) Clone, Materialize, SafeT allocate the result's storage, copy elements with a copy primitive and share no array/Header/Raw/mask with the source; (O8) and no access-pattern slices either; (S9) Slice/SliceInto build the view over the parent's window. " +
 			"Not decided: that the iterator writes land on the right elements (C05's arithmetic); native-slice conversions' element order.",
 		Run: func(rc *rules.RC) {
+			rules.V2(rc, 2)
 			rules.L0(rc, nil)
 			rules.LGuards(rc, "C04")
 			rules.LC(rc, 18)
@@ -390,10 +396,12 @@ func init() {
 			"Not decided: corruption through backing arrays the API documents as shared; use-after-return inside one function (O9) beyond the rules above.",
 		Assume: []string{"interface calls resolve to the module's implementing types (CHA restricted to the module)", "flow-insensitive origin tracing through locals and captured variables (over-approximates aliases)"},
 		Run: func(rc *rules.RC) {
+			rules.V2(rc, 2)
 			rules.RP(rc, nil, 4)
 			rules.WC(rc, 15)
 			rules.O6opt(rc)
 			oa := rules.O123(rc)
+			rules.O4(rc, oa, 100)
 			rules.O6(rc)
 			rules.O7(rc, oa)
 			rules.O8(rc)
@@ -407,6 +415,7 @@ func init() {
 			"Not decided: that the kernels compute Op (rules K1/K2 of C06/C11/C12 do), that iterators deliver matching coordinates (C05), the hand-written operations' value semantics.",
 		Assume: []string{"the summaries of E-level dispatch (destination = first non-scalar operand; Incr adds; Recv stores) and of storage.Copy/CopyIter/Fill, which rules K1arms/K2 check against the kernels", "sparse operands (swap) are outside the dense properties"},
 		Run: func(rc *rules.RC) {
+			rules.K1op(rc, []string{"defaultengine_arith.go", "defaultengine_cmp.go", "defaultengine_unary.go", "defaultengine_minmax.go", "defaultengine_misc.go"}, 30)
 			rules.WC(rc, 15)
 			rules.O6opt(rc)
 			rules.M2(rc, nil, 40, 900)
